@@ -2,6 +2,7 @@ import Model.Marshal
 /-!
 # Lemmas for C32: decimal printer/parser round trip, splitting, literal parsing
 -/
+set_option exponentiation.threshold 5000
 namespace Marshal
 
 /-! ## decimal printer / parser -/
@@ -244,17 +245,41 @@ theorem smallInt_of_lt (m : Nat) (h : m < 2 ^ 4094) : smallInt m = true := by
 
 /-! ## float literals, fractions -/
 
-theorem parseFloatLit_intToDec (i : Int) :
-    parseFloatLit (intToDec i) = .val (floatOfShift (decide (i < 0)) i.natAbs 0) := by
+theorem parseFloatLit_intToDec (cfg : Bool) (i : Int) :
+    parseFloatLit cfg (intToDec i) =
+      .val (if cfg then decimalIntToFloat (decide (i < 0)) i.natAbs
+            else floatOfShift (decide (i < 0)) i.natAbs 0) := by
   unfold parseFloatLit
   rw [splitSign_intToDec]
   obtain ⟨c, t, hct, _, _, _⟩ := natToDec_cons i.natAbs
   have hne : (natToDec i.natAbs).isEmpty = false := by rw [hct]; rfl
   simp only [hne, natToDec_all, Bool.not_false, Bool.and_self, if_true, parseDigits_natToDec']
 
-theorem parseFloatLit_small (i : Int) (h : i.natAbs < 2 ^ 4094) :
-    parseFloatLit (intToDec i) = .val (.rat i 1) := by
-  rw [parseFloatLit_intToDec, floatOfShift_small _ _ h, applySign_natAbs]
+/-- The integers that the literal reader of `unmarshalFloat` returns unchanged:
+    code as found (`cfg = false`): below 2^4094 (sufficient; the exact limit is 2^4095 - 2^3582);
+    with the fix (`cfg = true`): exactly those go/constant keeps as fractions (fewer than 4096 bits). -/
+def okNat (cfg : Bool) (n : Nat) : Prop := if cfg = true then smallInt n = true else n < 2 ^ 4094
+
+theorem okNat_of_lt (cfg : Bool) (n : Nat) (h : n < 2 ^ 4094) : okNat cfg n := by
+  unfold okNat; split
+  · exact smallInt_of_lt n h
+  · exact h
+
+theorem okNat_smallInt (cfg : Bool) (n : Nat) (h : okNat cfg n) : smallInt n = true := by
+  unfold okNat at h; split at h
+  · exact h
+  · exact smallInt_of_lt n h
+
+theorem parseFloatLit_ok (cfg : Bool) (i : Int) (h : okNat cfg i.natAbs) :
+    parseFloatLit cfg (intToDec i) = .val (.rat i 1) := by
+  rw [parseFloatLit_intToDec]
+  cases cfg with
+  | false =>
+    have h' : i.natAbs < 2 ^ 4094 := by simpa [okNat] using h
+    simp [floatOfShift_small _ _ h', applySign_natAbs]
+  | true =>
+    have h' : smallInt i.natAbs = true := by simpa [okNat] using h
+    simp [decimalIntToFloat, h', applySign_natAbs]
 
 theorem intToDec_ofNat (d : Nat) : intToDec (d : Int) = natToDec d := by
   unfold intToDec
@@ -265,9 +290,9 @@ theorem mkRat_coprime (n : Int) (d : Nat) (h : Nat.gcd n.natAbs d = 1) : mkRat n
   unfold mkRat
   simp [h]
 
-/-- a/b in lowest terms, both below 2^4094: BinaryOp(a, QUO, b) is the exact fraction -/
+/-- a/b in lowest terms, both with fewer than 4096 bits: BinaryOp(a, QUO, b) is the exact fraction -/
 theorem quo_small (n : Int) (d : Nat) (hd : 0 < d) (hg : Nat.gcd n.natAbs d = 1)
-    (hn : n.natAbs < 2 ^ 4094) (hd' : d < 2 ^ 4094) :
+    (hn : smallInt n.natAbs = true) (hd' : smallInt d = true) :
     quo (.rat n 1) (.rat (d : Int) 1) = .val (.rat n d) := by
   unfold quo
   have h0 : (d : Int) ≠ 0 := by omega
@@ -275,19 +300,19 @@ theorem quo_small (n : Int) (d : Nat) (hd : 0 < d) (hg : Nat.gcd n.natAbs d = 1)
   simp only [h0, if_false, h1, Int.mul_one, Nat.one_mul, Int.natAbs_natCast]
   have e : n * ((1 : Nat) : Int) = n := by simp
   rw [e, mkRat_coprime n d hg]
-  simp [makeRat, smallInt_of_lt _ hn, smallInt_of_lt _ hd']
+  simp [makeRat, hn, hd']
 
 def Flt.WF : Flt → Prop
   | .rat n d => 0 < d ∧ Nat.gcd n.natAbs d = 1
   | .big neg m e => (m = 0 ∧ neg = false ∧ e = 0) ∨ (m % 2 = 1 ∧ m < 2 ^ 512)
 
-/-- exact rational whose numerator and denominator are below 2^4094 -/
-def Flt.Small : Flt → Prop
-  | .rat n d => n.natAbs < 2 ^ 4094 ∧ d < 2 ^ 4094
+/-- exact rational whose numerator and denominator are read back unchanged (`okNat`) -/
+def Flt.Small (cfg : Bool) : Flt → Prop
+  | .rat n d => okNat cfg n.natAbs ∧ okNat cfg d
   | .big _ _ _ => False
 
-theorem unmarshalFloat_exactString (f : Flt) (hw : f.WF) (hs : f.Small) :
-    unmarshalFloat (exactString f) = .val f := by
+theorem unmarshalFloat_exactString (cfg : Bool) (f : Flt) (hw : f.WF) (hs : f.Small cfg) :
+    unmarshalFloat cfg (exactString f) = .val f := by
   cases f with
   | big neg m e => exact absurd hs (by simp [Flt.Small])
   | rat n d =>
@@ -299,13 +324,14 @@ theorem unmarshalFloat_exactString (f : Flt) (hw : f.WF) (hs : f.Small) :
       simp only [if_true]
       unfold unmarshalFloat
       simp only [splitFirst_none cSlash _ (intToDec_not_mem n cSlash (by decide) (by decide)),
-        parseFloatLit_small n hn, ofLit]
+        parseFloatLit_ok cfg n hn, ofLit]
     · simp only [h1, if_false]
       unfold unmarshalFloat
-      have := parseFloatLit_small (d : Int) (by simpa using hd')
+      have := parseFloatLit_ok cfg (d : Int) (by simpa using hd')
       rw [intToDec_ofNat] at this
       simp only [splitFirst_append cSlash _ _ (intToDec_not_mem n cSlash (by decide) (by decide)),
-        parseFloatLit_small n hn, this, quo_small n d hd hg hn hd']
+        parseFloatLit_ok cfg n hn, this,
+        quo_small n d hd hg (okNat_smallInt cfg _ hn) (okNat_smallInt cfg _ hd')]
 
 theorem exactString_rat_not_mem_colon (n : Int) (d : Nat) : ∀ x ∈ exactString (.rat n d), x ≠ cColon := by
   intro x hx
@@ -318,10 +344,202 @@ theorem exactString_rat_not_mem_colon (n : Int) (d : Nat) : ∀ x ∈ exactStrin
       · rw [h]; decide
       · exact natToDec_not_mem d cColon (by decide) x h
 
-theorem addZero_small (f : Flt) (hs : f.Small) : addZero f = f := by
+theorem addZero_small (cfg : Bool) (f : Flt) (hs : f.Small cfg) : addZero f = f := by
   cases f with
   | big neg m e => rfl
   | rat n d =>
     unfold addZero makeRat
-    simp [smallInt_of_lt _ hs.1, smallInt_of_lt _ hs.2]
+    simp [okNat_smallInt cfg _ hs.1, okNat_smallInt cfg _ hs.2]
+
+
+/-! ## hex printer / parser (mantissa of the floatVal text form) -/
+
+theorem hexDigitsAux_append (f n : Nat) (acc r : Bytes) :
+    hexDigitsAux f n acc ++ r = hexDigitsAux f n (acc ++ r) := by
+  induction f generalizing n acc with
+  | zero => rfl
+  | succ f ih =>
+    unfold hexDigitsAux
+    split
+    · rfl
+    · rw [ih]; rfl
+
+theorem hexVal_hexChar {d : Nat} (h : d < 16) : hexVal (hexChar d) = some d := by
+  unfold hexChar hexVal
+  by_cases h10 : d < 10
+  · simp [h10]; omega
+  · have h1 : (decide (48 ≤ 87 + d) && decide (87 + d ≤ 57)) = false := by simp; omega
+    have h2 : (decide (97 ≤ 87 + d) && decide (87 + d ≤ 102)) = true := by simp; omega
+    simp [h10, h1, h2]
+
+theorem parseHex_hexDigitsAux (f n : Nat) (acc : Bytes) (h : n < f) :
+    parseHex 0 (hexDigitsAux f n acc) = parseHex n acc := by
+  induction f generalizing n acc with
+  | zero => omega
+  | succ f ih =>
+    unfold hexDigitsAux
+    split
+    · rename_i h16
+      simp [parseHex, hexVal_hexChar h16]
+    · rename_i h16
+      rw [ih (n / 16) _ (by omega)]
+      have hd : hexVal (hexChar (n % 16)) = some (n % 16) := hexVal_hexChar (by omega)
+      simp only [parseHex, hd]
+      congr 1
+      omega
+
+/-- own hex parser inverts own hex printer, whatever follows -/
+theorem parseHex_hexDigits (n : Nat) (r : Bytes) :
+    parseHex 0 (hexDigits n ++ r) = parseHex n r := by
+  unfold hexDigits
+  rw [hexDigitsAux_append, parseHex_hexDigitsAux _ _ _ (by omega)]
+  rfl
+
+theorem parseHex_hexDigits' (n : Nat) : parseHex 0 (hexDigits n) = some n := by
+  have := parseHex_hexDigits n []
+  simpa [parseHex] using this
+
+theorem hexDigitsAux_all (f n : Nat) (acc : Bytes) :
+    (hexDigitsAux f n acc).all (fun c => (hexVal c).isSome) = acc.all (fun c => (hexVal c).isSome) := by
+  induction f generalizing n acc with
+  | zero => rfl
+  | succ f ih =>
+    unfold hexDigitsAux
+    split
+    · rename_i h16; simp [hexVal_hexChar h16]
+    · rw [ih]
+      have hd : hexVal (hexChar (n % 16)) = some (n % 16) := hexVal_hexChar (by omega)
+      simp [hd]
+
+theorem hexDigits_all (n : Nat) : (hexDigits n).all (fun c => (hexVal c).isSome) = true := by
+  unfold hexDigits; rw [hexDigitsAux_all]; rfl
+
+theorem takeWhile_append_stop (p : Nat → Bool) (l r : Bytes) (c : Nat)
+    (hl : l.all p = true) (hc : p c = false) :
+    (l ++ c :: r).takeWhile p = l ∧ (l ++ c :: r).dropWhile p = c :: r := by
+  induction l with
+  | nil => simp [List.takeWhile, List.dropWhile, hc]
+  | cons a l ih =>
+    simp only [List.all_cons, Bool.and_eq_true] at hl
+    have := ih hl.2
+    simp [List.takeWhile, List.dropWhile, hl.1, this.1, this.2]
+
+theorem hexDigitsAux_ne_nil (f n : Nat) (acc : Bytes) (h : acc ≠ []) : hexDigitsAux f n acc ≠ [] := by
+  induction f generalizing n acc with
+  | zero => exact h
+  | succ f ih =>
+    unfold hexDigitsAux
+    split
+    · simp
+    · exact ih _ _ (by simp)
+
+theorem hexDigits_ne_nil (n : Nat) : hexDigits n ≠ [] := by
+  unfold hexDigits hexDigitsAux
+  split
+  · simp
+  · exact hexDigitsAux_ne_nil _ _ _ (by simp)
+
+theorem hexDigitsAux_length (f n : Nat) (acc : Bytes) (k : Nat) (hk : 0 < k) (h : n < 16 ^ k) :
+    (hexDigitsAux f n acc).length ≤ k + acc.length := by
+  induction f generalizing n acc k with
+  | zero => simp [hexDigitsAux]
+  | succ f ih =>
+    unfold hexDigitsAux
+    split
+    · simp; omega
+    · rename_i h16
+      have hk2 : 2 ≤ k := by
+        rcases Nat.lt_or_ge k 2 with hlt | hge
+        · have : k = 1 := by omega
+          subst this; simp at h; omega
+        · exact hge
+      have hdiv : n / 16 < 16 ^ (k - 1) := by
+        apply Nat.div_lt_of_lt_mul
+        have : 16 ^ k = 16 * 16 ^ (k - 1) := by
+          rw [← Nat.pow_succ']; congr 1; omega
+        omega
+      have := ih (n / 16) (hexChar (n % 16) :: acc) (k - 1) (by omega) hdiv
+      simp only [List.length_cons] at this
+      omega
+
+theorem natToDecAux_length (f n : Nat) (acc : Bytes) (k : Nat) (hk : 0 < k) (h : n < 10 ^ k) :
+    (natToDecAux f n acc).length ≤ k + acc.length := by
+  induction f generalizing n acc k with
+  | zero => simp [natToDecAux]
+  | succ f ih =>
+    unfold natToDecAux
+    split
+    · simp; omega
+    · rename_i h10
+      have hk2 : 2 ≤ k := by
+        rcases Nat.lt_or_ge k 2 with hlt | hge
+        · have : k = 1 := by omega
+          subst this; simp at h; omega
+        · exact hge
+      have hdiv : n / 10 < 10 ^ (k - 1) := by
+        apply Nat.div_lt_of_lt_mul
+        have : 10 ^ k = 10 * 10 ^ (k - 1) := by
+          rw [← Nat.pow_succ']; congr 1; omega
+        omega
+      have := ih (n / 10) ((48 + n % 10) :: acc) (k - 1) (by omega) hdiv
+      simp only [List.length_cons] at this
+      omega
+
+theorem mantHex_length (m : Nat) (hm : m < 2 ^ 512) : (mantHex m).length ≤ 128 := by
+  unfold mantHex hexDigits
+  have hb : bitlen m ≤ 512 := (bitlen_le_iff m 512).mpr hm
+  have hM : m <<< ((4 - bitlen m % 4) % 4) < 16 ^ 128 := by
+    have h1 := bitlen_shiftLeft m ((4 - bitlen m % 4) % 4)
+    have h2 : bitlen (m <<< ((4 - bitlen m % 4) % 4)) ≤ 512 := by omega
+    have := (bitlen_le_iff _ 512).mp h2
+    have e : (16 : Nat) ^ 128 = 2 ^ 512 := by decide +kernel
+    omega
+  have := hexDigitsAux_length (m <<< ((4 - bitlen m % 4) % 4) + 1) _ [] 128 (by omega) hM
+  simpa using this
+
+theorem splitSign_expToDec (x : Int) :
+    splitSign (expToDec x) = (decide (x < 0), natToDec x.natAbs) := by
+  unfold expToDec
+  split
+  · rename_i h
+    have : ¬ x < 0 := by omega
+    simp [splitSign, cPlus, this]
+  · rename_i h
+    have : x < 0 := by omega
+    simp [splitSign, cMinus, this]
+
+/-- The text of a floatVal (`0x.<mantissa>p±<exp>`, ftoa.go fmtP) is read back by the model's
+    literal reader as the same mantissa bits and the same binary exponent. -/
+theorem parseHexP_bigText (m : Nat) (x : Int) (hm : m < 2 ^ 512) (hx : x.natAbs < 10 ^ 9) :
+    parseHexP (sHexDot ++ mantHex m ++ cP :: expToDec x) =
+      some (m <<< ((4 - bitlen m % 4) % 4), x - 4 * ((mantHex m).length : Int)) := by
+  have hlen := mantHex_length m hm
+  have hne : mantHex m ≠ [] := by unfold mantHex; exact hexDigits_ne_nil _
+  have hall : (mantHex m).all (fun c => (hexVal c).isSome) = true := by
+    unfold mantHex; exact hexDigits_all _
+  have hstop : (fun c => (hexVal c).isSome) cP = false := by decide
+  obtain ⟨htw, hdw⟩ := takeWhile_append_stop (fun c => (hexVal c).isSome) (mantHex m) (expToDec x) cP hall hstop
+  have hdl : (natToDec x.natAbs).length ≤ 9 := by
+    have := natToDecAux_length (x.natAbs + 1) x.natAbs [] 9 (by omega) hx
+    simpa [natToDec] using this
+  obtain ⟨c, t, hct, _, _, _⟩ := natToDec_cons x.natAbs
+  have hdne : (natToDec x.natAbs).isEmpty = false := by rw [hct]; rfl
+  have hmne : (mantHex m).isEmpty = false := by
+    cases hmm : mantHex m with
+    | nil => exact absurd hmm hne
+    | cons _ _ => rfl
+  have hph : parseHex 0 (mantHex m) = some (m <<< ((4 - bitlen m % 4) % 4)) := by
+    unfold mantHex; exact parseHex_hexDigits' _
+  have e : sHexDot ++ mantHex m ++ cP :: expToDec x = 48 :: 120 :: 46 :: (mantHex m ++ cP :: expToDec x) := by
+    simp [sHexDot]
+  rw [e]
+  unfold parseHexP
+  simp only [htw, hdw]
+  have hc : cP = 112 := rfl
+  rw [hc]
+  simp only [splitSign_expToDec, hmne, hdne, natToDec_all, hph, parseDigits_natToDec',
+    applySign_natAbs, Bool.false_or, Bool.not_true, Bool.or_false]
+  have h1 : decide ((mantHex m).length > 128) = false := by simp; omega
+  have h2 : decide ((natToDec x.natAbs).length > 9) = false := by simp; omega
+  simp [h1, h2]
 end Marshal
